@@ -300,32 +300,47 @@ func nontrivial(c Case) bool {
 	return false
 }
 
+// genCase draws a size and a sequence of operations.
+func genCase(rt *rapid.T, sub string) Case {
+	c := Case{Cols: rapid.IntRange(2, 8).Draw(rt, "cols"), Rows: rapid.IntRange(2, 6).Draw(rt, "rows")}
+	k := rapid.IntRange(1, harness.Scale(30, 60)).Draw(rt, "nops")
+	// the generator follows the reference terminal to respect the
+	// deferred-wrap exemption by construction
+	ref := refterm.New(c.Cols, c.Rows, refterm.Caps{})
+	ref.Method = 2
+	for i := 0; i < k; i++ {
+		op := genOp(rt, c.Cols, c.Rows)
+		if ref.PendingWrap && !allowedInPendingWrap(op) {
+			harness.R.Excluded(sub, "operation other than print/CR/absolute positioning in the deferred-wrap state")
+			continue
+		}
+		_, _ = ref.Write([]byte(op.Bytes()))
+		c.Ops = append(c.Ops, op)
+		harness.R.Label(sub, "op:"+op.K+op.F)
+	}
+	if nontrivial(c) {
+		harness.R.Nontrivial(sub, c)
+	}
+	harness.R.Sample(sub, c)
+	return c
+}
+
 func TestRandomSequences(t *testing.T) {
 	const sub = "sequences"
 	n := harness.PerShard(harness.Scale(150_000, 10_000_000))
-	harness.Check(t, sub, n, func(rt *rapid.T) Case {
-		c := Case{Cols: rapid.IntRange(2, 8).Draw(rt, "cols"), Rows: rapid.IntRange(2, 6).Draw(rt, "rows")}
-		k := rapid.IntRange(1, harness.Scale(30, 60)).Draw(rt, "nops")
-		// the generator follows the reference terminal to respect the
-		// deferred-wrap exemption by construction
-		ref := refterm.New(c.Cols, c.Rows, refterm.Caps{})
-		ref.Method = 2
-		for i := 0; i < k; i++ {
-			op := genOp(rt, c.Cols, c.Rows)
-			if ref.PendingWrap && !allowedInPendingWrap(op) {
-				harness.R.Excluded(sub, "operation other than print/CR/absolute positioning in the deferred-wrap state")
-				continue
-			}
-			_, _ = ref.Write([]byte(op.Bytes()))
-			c.Ops = append(c.Ops, op)
-			harness.R.Label(sub, "op:"+op.K+op.F)
+	harness.Check(t, sub, n, func(rt *rapid.T) Case { return genCase(rt, sub) }, run)
+}
+
+// FuzzSequences drives the same generator and oracle from Go's coverage-guided
+// fuzzer (the fuzzer mutates the bit stream rapid draws from). Thorough tier.
+func FuzzSequences(f *testing.F) {
+	f.Fuzz(rapid.MakeFuzz(func(rt *rapid.T) {
+		c := genCase(rt, "fuzz")
+		if msg := run(c); msg != "" {
+			harness.FuzzSave("fuzz", msg, c)
+			rt.Fatalf("%s", msg)
 		}
-		if nontrivial(c) {
-			harness.R.Nontrivial(sub, c)
-		}
-		harness.R.Sample(sub, c)
-		return c
-	}, run)
+	}))
 }
 
 // all sequences of <= 3 operations over a reduced alphabet on 2x2 and 3x2
@@ -414,5 +429,5 @@ func TestReftermVectors(t *testing.T) {
 
 func TestReplay(t *testing.T) {
 	r := harness.Decode(run)
-	harness.ReplayAll(t, map[string]harness.Runner{"sequences": r, "short-exhaustive": r})
+	harness.ReplayAll(t, map[string]harness.Runner{"fuzz": r, "sequences": r, "short-exhaustive": r})
 }
